@@ -214,7 +214,9 @@ def add(*a, **kw):
     KERNELS.append(K(*a, **kw))
 
 
-I, R, B = "Int", "Rat", "Bool"
+I, R, B, S = "Int", "Rat", "Bool", "Str"
+# string-typed kernel arguments travel through the line protocol as indices into this table
+STR_TABLE = ["auto", "full", "tsqr", "randomized", "arpack", "covariance_eigh", "bogus"]
 
 # ==========================================================================================
 # C02  crop window / slice arithmetic          acryo/_utils.py
@@ -1418,3 +1420,116 @@ def _weight_cache_pure(t):
 
 
 add("butterworthCacheNotMutated", "Lowpass", ["C16"], "acryo/_utils.py", "const", [], pattern(_weight_cache_pure))
+
+
+# ==========================================================================================
+# C18  PCA: solver choice, flattening / masking order, projection, label write-back
+# ==========================================================================================
+_PCA = "acryo/classification/_dask_pca.py"
+_CLF = "acryo/classification/pca.py"
+
+
+def _get_solver_sel(t):
+    fn = func(t, "DaskPCA._get_solver")
+    stmts, solvers = [], None
+    for st in fn.body:
+        if isinstance(st, ast.Assign) and ast.unparse(st.targets[0]) == "(n_samples, n_features)" \
+                and ast.unparse(st.value) == "X.shape":
+            continue
+        if isinstance(st, ast.Assign) and ast.unparse(st.targets[0]) == "solvers" \
+                and isinstance(st.value, (ast.Set, ast.Tuple, ast.List)):
+            solvers = st.value
+            continue
+        if isinstance(st, ast.Return):
+            if ast.unparse(st.value) != "solver":
+                raise SelectorMiss("_get_solver no longer returns `solver`")
+            continue
+        stmts.append(copy.deepcopy(st))
+    if solvers is None:
+        raise SelectorMiss("solver set not found")
+
+    class Inl(ast.NodeTransformer):
+        def visit_Name(self, node):
+            return copy.deepcopy(solvers) if node.id == "solvers" else node
+
+        def visit_Assign(self, node):
+            # error-message strings are not modelled
+            if ast.unparse(node.targets[0]) == "msg":
+                return ast.Pass()
+            return self.generic_visit(node)
+
+    stmts = [Inl().visit(st) for st in stmts]
+    return stmts, ["solver"]
+
+
+add("getSolver", "Pca", ["C18"], _PCA, "func",
+    [("n_samples", I), ("n_features", I), ("n_components", I), ("svd_solver", S), ("known_shape", B)],
+    _get_solver_sel, ret="String",
+    subst={"self.svd_solver": "svd_solver", "_known_shape(X.shape)": "known_shape"})
+
+
+def _clf_solver(t):
+    c = call(func(t, "PcaClassifier.__init__"), "PCA")
+    try:
+        v = kwarg(c, "svd_solver")
+    except SelectorMiss:
+        # not passed: the default of DaskPCA.__init__ applies
+        return "auto"
+    if not (isinstance(v, ast.Constant) and isinstance(v.value, str)):
+        raise SelectorMiss("svd_solver is not a literal")
+    return v.value
+
+
+def _default_solver(t):
+    fn = func(t, "DaskPCA.__init__")
+    names = [a.arg for a in fn.args.args]
+    d = fn.args.defaults[names.index("svd_solver") - (len(names) - len(fn.args.defaults))]
+    return d.value
+
+
+add("pcaClassifierSolverArg", "Pca", ["C18"], _CLF, "const", [], _clf_solver)
+add("pcaDefaultSolver", "Pca", ["C18"], _PCA, "const", [], _default_solver)
+add("pcaFitStructure", "Pca", ["C18"], _PCA, "const", [],
+    pattern(lambda t: _has(ast.unparse(func(t, "DaskPCA._fit")),
+                           "solver = self._get_solver(X, n_components)",
+                           "self.mean_ = X.mean(0)", "X -= self.mean_",
+                           "if solver in {'full', 'tsqr'}:", "U, S, V = da.linalg.svd(X)",
+                           "components, singular_values = (V, S)",
+                           "self.components_ = self.components_[:n_components]",
+                           "self.singular_values_ = self.singular_values_[:n_components]")))
+add("pcaTransformStructure", "Pca", ["C18"], _PCA, "const", [],
+    pattern(lambda t: _has(ast.unparse(func(t, "DaskPCA.transform")),
+                           "X = X - self.mean_", "X_transformed = da.dot(X, self.components_.T)",
+                           "if self.whiten:", "return X_transformed")))
+
+
+def _clf_structure(t):
+    init = ast.unparse(func(t, "PcaClassifier.__init__"))
+    _has(init, "if mask_image is None: self._mask = 1", "self._mask = mask_image",
+         "self._n_image = image_stack.shape[0]", "self._shape = image_stack.shape[1:]")
+    flat = ast.unparse(func(t, "PcaClassifier._image_flat"))
+    _has(flat, "_input = self._image * self._mask", "_flat_images = _input.reshape(self._n_image, -1)")
+    run = ast.unparse(func(t, "PcaClassifier.run"))
+    _has(run, "_flat_image = self._image_flat(mask=True)", "self._pca.fit(_flat_image)",
+         "self._labels = self._kmeans.fit_predict(self.get_transform())")
+    gt = ast.unparse(func(t, "PcaClassifier.get_transform"))
+    _has(gt, "flat = self._image_flat(mask=True)", "return self._pca.transform(flat).compute()")
+    tr = ast.unparse(func(t, "PcaClassifier.transform"))
+    _has(tr, "input = input * self._mask", "flat = input.reshape(input.shape[0], -1)",
+         "return self._pca.transform(flat).compute()")
+    return True
+
+
+add("pcaClassifierStructure", "Pca", ["C18"], _CLF, "const", [], pattern(_clf_structure))
+add("pcaFlatSingleColumnChunk", "Pca", ["C18"], _CLF, "const", [],
+    pattern(lambda t: _has(ast.unparse(func(t, "PcaClassifier._image_flat")), "rechunk({1: -1})")))
+add("classifyLabelWriteBack", "Pca", ["C18"], "acryo/loader/_base.py", "const", [],
+    pattern(lambda t: _has(ast.unparse(func(t, "LoaderBase.classify")),
+                           "self.iter_mapping_tasks(model.masked_difference, output_shape=shape, "
+                           "var_kwarg=dict(quaternion=self.molecules.quaternion()))",
+                           ".tolist().tostack(shape=shape, dtype=np.float32)",
+                           "clf = PcaClassifier(stack, model.mask, n_components=n_components, "
+                           "n_clusters=n_clusters, seed=seed)", "clf.run()",
+                           "mole = self.molecules.copy()",
+                           "mole.features = mole.features.with_columns(pl.Series(label_name, clf._labels))",
+                           "new = self.replace(molecules=mole)", "return ClassificationResult(new, clf)")))
